@@ -708,6 +708,10 @@ func (c *CVMContract) execute(st engine.State, params engine.CallParams) ([]byte
 			if op != DELEGATECALL && op != STATICCALL {
 				value = *stack.PopBigInt()
 			}
+			if op == STATICCALL {
+				// a static call carries no value: the callee sees CALLVALUE 0
+				value = *new(big.Int)
+			}
 			// inputs
 			inOffset, inSize := stack.PopBigInt(), stack.PopBigInt()
 			// outputs
